@@ -31,6 +31,7 @@ def run(ctx):
     serde_shape(ctx, f, cfg)
     parser(ctx, ctx.facts("core-super"), "core-super")     # the datasource module exists only with a ds_* feature
     metric(ctx, f, cfg)
+    enum_codec(ctx, f, cfg)
 
 
 def _impl_traits(f, ty):
@@ -111,6 +112,49 @@ def parser(ctx, f, cfg):
     ctx.instance("C18.parser", b.path, {"from_str_sites": len(calls), "error_propagated": prop, "panic_sites": [s["kind"] for s in sites]}, "serde_json::from_str(src)? and no panic site", ok, cfg)
     if not ok:
         ctx.violation("C18.parser", "C18.parser|shape", "the rule parser does not turn a malformed document into an Err: %s" % {"propagated": prop, "panic_sites": [s["callee"] for s in sites]}, b.loc(), config=cfg)
+
+
+def enum_codec(ctx, f, cfg):
+    """Enums that are written with `as <int>` and read back through a hand-written `From<int>`: every integer the reader maps to a variant
+    is that variant's discriminant (explicit or implicit), and every variant is reachable.  (MetricItem writes `resource_type as u8` and
+    parses it with `ResourceType::from(u8)`.)"""
+    n = 0
+    for b in f.impl_methods("From", "from"):
+        adt = f.adts.get(b.impl_self or "")
+        if not adt or adt["kind"] != "Enum" or b.argc != 1 or b.local_ty(1) not in ("u8", "u16", "u32", "u64", "i8", "i16", "i32", "i64", "usize", "isize"):
+            continue
+        t0 = b.term(0)
+        if not t0 or t0["k"] != "switch" or (op_place(t0["op"]) or {}).get("l") != 1:
+            continue
+        n += 1
+        disc = {v["name"]: v.get("discr") for v in adt["variants"]}
+
+        def built(start):
+            seen, work = set(), [start]
+            while work:
+                x = work.pop()
+                if x in seen:
+                    continue
+                seen.add(x)
+                for st in b.blocks[x]["stmts"]:
+                    if st["k"] == "assign" and st["lhs"]["l"] == 0 and st["rv"]["k"] == "agg" and st["rv"].get("variant"):
+                        return st["rv"]["variant"]
+                work += b.succs(x)
+            return None
+        table = {val: built(tg) for val, tg in t0["targets"]}
+        default = built(t0["otherwise"])
+        bad = {val: (v, disc.get(v)) for val, v in table.items() if v is None or disc.get(v) != val}
+        covered = set(table.values()) | {default}
+        unreachable = sorted(v for v in disc if v not in covered)
+        # the default arm may stand for the variant whose discriminant is not listed; it must not shadow a listed one
+        ok = not bad and not unreachable
+        ctx.instance("C18.enum-codec", b.path, {"reader": {str(k): v for k, v in sorted(table.items())}, "default": default, "discriminants": disc, "disagreements": {str(k): v for k, v in bad.items()}, "unreachable": unreachable},
+                     "From<int> maps each integer to the variant with that discriminant", ok, cfg)
+        if not ok:
+            ctx.violation("C18.enum-codec", "C18.enum-codec|%s|%s" % ((b.impl_self or "").rsplit("::", 1)[-1], ",".join(str(k) for k in sorted(bad)) or "unreachable:" + ",".join(unreachable)),
+                          "%s: `as` writes the discriminant but From<int> reads %s (integer: (variant, its discriminant)): a value written for one variant parses back as another" % (b.impl_self, bad or unreachable),
+                          b.loc(), config=cfg)
+    ctx.floor("C18.enum-codec", "hand-written From<int> impls for enums", n, 1)
 
 
 def metric(ctx, f, cfg):
